@@ -174,6 +174,10 @@ def case(ctx, kind, a=None, b=None, nd=1, n=2, sk=None):
                    odl.ProductSpace(odl.rn(3), 2), odl.ProductSpace(odl.rn(3), odl.rn(3)),
                    odl.ProductSpace(odl.rn(3), 2, weighting=2.0), odl.ProductSpace(odl.rn(3), 2, weighting=[2.0, 2.0]),
                    odl.ProductSpace(odl.rn(3), 3), odl.ProductSpace(odl.ProductSpace(odl.rn(3), 2), 1),
+                   odl.ProductSpace(odl.rn(3), odl.rn(2)), odl.ProductSpace(odl.cn(3), odl.cn(3)),
+                   odl.ProductSpace(odl.rn(3), odl.rn(3), odl.rn(2)), odl.ProductSpace(odl.rn(2), odl.rn(3)),
+                   odl.ProductSpace(odl.ProductSpace(odl.rn(3), 2), odl.ProductSpace(odl.rn(3), odl.rn(2))),
+                   odl.ProductSpace(odl.ProductSpace(odl.rn(3), 2), 2),
                    odl.rn(3).real_space, odl.cn(3).real_space, odl.rn(3).complex_space]
         else:
             fam = [odl.RealNumbers(), odl.RealNumbers(), odl.ComplexNumbers(), odl.Integers(), odl.Strings(3),
@@ -280,6 +284,16 @@ def case(ctx, kind, a=None, b=None, nd=1, n=2, sk=None):
             if hasattr(got, 'space'):
                 ctx.fact(tag + '/shape', tuple(got.shape) == tuple(np.shape(ref)))
                 ctx.fact(tag + '/dtype', got.dtype == sp.dtype)
+                w = getattr(sp.weighting, 'array', None)
+                if w is not None:
+                    # per-entry weights follow the entries: norms and inner products of the selection stay those
+                    # of the selected entries
+                    gw = getattr(got.space.weighting, 'array', None)
+                    ctx.fact(tag + '/selected-weights', gw is not None and np.shape(gw) == np.shape(w[idx]) and
+                             np.array_equal(gw, w[idx]), 'weights of the result %r, selected %r' % (gw, w[idx]))
+                elif hasattr(sp.weighting, 'const') and not hasattr(sp, 'partition'):
+                    ctx.fact(tag + '/constant-weight-kept', getattr(got.space.weighting, 'const', None) ==
+                             sp.weighting.const)
         return
     if kind == 'derived':
         for dt in ('float16', 'float32', 'float64'):
@@ -305,6 +319,21 @@ def case(ctx, kind, a=None, b=None, nd=1, n=2, sk=None):
         d2 = odl.uniform_discr([0, 0], [1, 2], (2, 4))
         ctx.fact('byaxis_in', d2.byaxis_in[1].shape == (4,) and np.allclose(d2.byaxis_in[1].cell_sides, [0.5]) and
                  d2.byaxis_in[[1, 0]].shape == (4, 2))
+        for dt in ('float32', 'float64', 'complex64', 'complex128'):
+            d3 = odl.uniform_discr([0, 0, -1], [1, 2, 1], (2, 4, 3), dtype=dt)
+            for idx, axes_ in ((1, [1]), ([2, 0], [2, 0]), (slice(0, 2), [0, 1])):
+                sub = d3.byaxis_in[idx]
+                direct = odl.uniform_discr([d3.min_pt[a_] for a_ in axes_], [d3.max_pt[a_] for a_ in axes_],
+                                           [d3.shape[a_] for a_ in axes_], dtype=dt)
+                ctx.fact('byaxis_in/%s/%s/dtype-and-field' % (dt, idx), sub.dtype == d3.dtype and sub.field == d3.field,
+                         'got %r' % (sub,))
+                ctx.fact('byaxis_in/%s/%s/equals-the-space-built-on-those-axes' % (dt, idx), sub == direct and
+                         hash(sub) == hash(direct), 'got %r expected %r' % (sub, direct))
+            t3 = odl.tensor_space((2, 4, 3), dtype=dt, weighting=2.0, exponent=1.5)
+            for idx, shp in ((1, (4,)), ([2, 0], (3, 2)), (slice(0, 2), (2, 4))):
+                sub = t3.byaxis[idx]
+                ctx.fact('byaxis/%s/%s' % (dt, idx), sub == odl.tensor_space(shp, dtype=dt, weighting=2.0, exponent=1.5),
+                         'got %r' % (sub,))
         ps = odl.ProductSpace(odl.rn(2), odl.rn(3), odl.rn(1))
         ctx.fact('pspace-getitem', ps[1] == odl.rn(3) and ps[[2, 0]] == odl.ProductSpace(odl.rn(1), odl.rn(2)) and
                  ps[1:] == odl.ProductSpace(odl.rn(3), odl.rn(1)))
